@@ -139,6 +139,9 @@ HASH_KEYS = {
 }
 
 
+EQ_HASH = {"set_core_eq": "set_core_hash", "dists_eq": "dists_hash", "set_core_dists_eq": "set_core_dists_hash", "set_term_lookahead_eq": "set_term_lookahead_hash",
+           "term_set_eq": "term_set_hash", "symb_repr_eq": "symb_repr_hash", "symb_code_eq": "symb_code_hash", "parse_state_eq": "parse_state_hash",
+           "transition_els_eq": "transition_els_hash", "reduce_els_eq": "reduce_els_hash"}
 ARRAY_HASHES = set(["set_core_hash", "dists_hash", "set_core_dists_hash", "term_set_hash", "symb_repr_hash", "transition_els_hash", "reduce_els_hash"])
 
 
@@ -243,15 +246,35 @@ def rule_hash_covers_key(ctx, rep, config="c-lib"):
                          "loops that hash an array run to a bound that is not a constant (all elements, not the first k)")
     p = ctx.prog(config)
     seen = {}
+    pairs = []
     for f in p.m.defined():
         if f.module and not f.module.startswith("yaep."):
             continue
         for i in f.calls():
             if i.callee == "create_hash_table":
-                h = strip_casts(f, i.args[2])
+                h, e_ = strip_casts(f, i.args[2]), strip_casts(f, i.args[3])
                 if h.get("k") == "f":
                     seen[h["v"]] = i
+                    if e_.get("k") == "f":
+                        pairs.append((h["v"], e_["v"], i))
     n = 0
+    # the hash given to a table covers what the table's equality distinguishes: (hash, equality) pairs as frozen, or a hash that depends on at least the key of the
+    # hash that belongs to the equality
+    for (hfn, efn, site) in pairs:
+        want = EQ_HASH.get(efn)
+        if want is None or want == hfn:
+            continue
+        n += 1
+        need = HASH_KEYS.get(want, ([], ""))[0]
+        got = _dep_reads(p, hfn)
+        missing = [k for k in need if k not in got]
+        key = "%s+%s/hash-covers-equality" % (hfn, efn)
+        if missing:
+            rep.violation("R27-hash", key, "the table created at %s distinguishes its elements by %s (%s) but is hashed by %s, which does not depend on %s: all elements that "
+                          "differ only there share one probe sequence -- every lookup walks through them" % (
+                              site.where(), efn, HASH_KEYS.get(want, ([], "?"))[1], hfn, ", ".join(missing)), where=site.where(), witness=[site.where()])
+        else:
+            rep.ok("R27-hash", key, sample={"table_created_at": site.where()})
     for hfn, site in sorted(seen.items()):
         if hfn not in HASH_KEYS:
             if hfn in ("reserv_mem_hash", "trans_visit_node_hash"):
@@ -296,7 +319,7 @@ def rule_hash_covers_key(ctx, rep, config="c-lib"):
                 badl[0].name, const_int(badl[1].ops[1])), where=badl[1].where(), witness=[badl[1].where()])
         else:
             rep.ok("R27-hash", key, sample={"table_created_at": site.where(), "depends_on": need})
-    rep.floor("R27-hash", "hash functions with a key", n, 10)
+    rep.floor("R27-hash", "hash functions with a key", n, 9)
 
 
 def rule_goto_cache(ctx, rep, config="c-lib"):
@@ -322,18 +345,40 @@ def rule_goto_cache(ctx, rep, config="c-lib"):
                 and lp.root == ("g", "new_set") and not lp.steps:
             guard = cc
     taken = None
+
+    def from_result(v):
+        x = f.inst(strip_casts(f, v))
+        k = 0
+        while x is not None and x.op == "phi" and k < 4:
+            nxt = [f.inst(strip_casts(f, y)) for (y, _) in x.d["incoming"]]
+            nxt = [y for y in nxt if y is not None and y.op in ("load", "phi")]
+            x = nxt[0] if nxt else None
+            k += 1
+        return x is not None and x.op == "load" and resolve_addr(f, x.ops[0]).last_field() == "set_term_lookahead.result"
+
+    def validated(conds):
+        return any(strip_int_casts(f, cc.ops[0]).get("v") == hits[0].id and const_int(cc.ops[1]) == 0 and (cc.d["pred"] == "ne") == pol for (cc, pol) in conds)
+    from .r4 import _edge_conditions
     for s_ in f.all_insts():
         if s_.op != "store" or resolve_addr(f, s_.ops[1]).root != ("g", "new_set") or resolve_addr(f, s_.ops[1]).steps:
             continue
         v = f.inst(strip_casts(f, s_.ops[0]))
-        while v is not None and v.op == "phi":
-            nxt = [f.inst(strip_casts(f, x)) for (x, _) in v.d["incoming"]]
-            nxt = [x for x in nxt if x is not None and x.op == "load"]
-            v = nxt[0] if nxt else None
-        if v is not None and v.op == "load" and resolve_addr(f, v.ops[0]).last_field() == "set_term_lookahead.result":
-            if any(strip_int_casts(f, cc.ops[0]).get("v") == hits[0].id and const_int(cc.ops[1]) == 0 and (cc.d["pred"] == "ne") == pol
-                   for (cc, pol) in _controlling_conditions(f, s_.block.name)):
-                taken = s_
+        if from_result(s_.ops[0]) and validated(_controlling_conditions(f, s_.block.name)):
+            taken = s_
+        elif v is not None and v.op == "phi":
+            # new_set = <the cached set on the validated edge, NULL otherwise>   (a helper that returns the accepted set, inlined)
+            work, seen = [v], set()
+            while work:
+                ph = work.pop()
+                if ph.id in seen:
+                    continue
+                seen.add(ph.id)
+                for (iv, pb) in ph.d["incoming"]:
+                    x = f.inst(strip_casts(f, iv))
+                    if from_result(iv) and validated(_edge_conditions(f, pb, ph.block.name)):
+                        taken = s_
+                    elif x is not None and x.op == "phi":
+                        work.append(x)
     ok_skip = guard is not None and taken is not None
     if ok_skip:
         rep.ok("R27-goto", "build_pl/build-skipped-after-hit", sample={"build": b.where(), "guard": guard.where(), "cached_set_taken_at": taken.where()})
@@ -452,3 +497,47 @@ def rule_growth_cxx(ctx, rep, config="cxx-lib"):
 
 def rule_consing_cxx(ctx, rep, config="cxx-lib"):
     rule_consing(ctx, rep, config="cxx-lib", tag="[c++] ")
+
+
+def rule_growth_storage(ctx, rep, config="c-lib", tag=""):
+    rep.rule("R27-growth-storage", "_VLO_expand_memory and _OS_expand_memory (C and C++) ask for more than they need by an amount that grows with the length of the object "
+                                   "(request - (length + addition) depends on the length): capacities grow geometrically, n appends cost O(n) bytes moved -- a slack "
+                                   "that depends on the addition only makes almost every append reallocate")
+    from .r4 import _alts
+    p = ctx.prog(config)
+    n = 0
+    for f in p.m.defined():
+        if not f.module or not f.module.startswith(("vlobject.", "objstack.")):
+            continue
+        nm = f.d.get("srcname") or f.name
+        if nm not in ("_VLO_expand_memory", "_OS_expand_memory"):
+            continue
+        rep.cover(p, [f.name])
+        for c in f.calls():
+            g = p.m.functions.get(c.callee or "")
+            cn = (g.d.get("srcname") if g is not None else None) or (c.callee or "")
+            if cn not in ("yaep_malloc", "yaep_realloc"):
+                continue
+            n += 1
+            key = tag + "%s/slack-grows-with-length" % nm
+            alts = [a for a in _alts(f, c.args[-1]) if not a.is_const()]
+            if not alts:
+                raise AnalysisBroken("R27-growth-storage: the size requested in %s is a constant" % f.name)
+            bad = None
+            for a in alts:
+                lin_part = [k for k in a.t if (k.endswith("_free]") or k.endswith("_start]")) and not k.startswith("div(")]
+                # the length is spelled free - start, or (C++) as the value of the length getter
+                slack_part = [k for k in a.t if k.startswith(("div(", "mul(", "lshr(")) and ("_free]" in k or "call#" in k)]
+                coef = max([a.t[k] for k in lin_part if k.endswith("_free]")] + [a.t[k] for k in a.t if k.startswith("call#")] or [0])
+                if not slack_part and coef < 2:
+                    bad = a
+            if bad is None:
+                rep.ok("R27-growth-storage", key, sample={"request": [repr(a) for a in alts][:2]})
+            else:
+                rep.violation("R27-growth-storage", key, "the size requested is %r: beyond the bytes needed it does not grow with the length of the object -- the capacity grows "
+                              "additively and the bytes requested over n appends grow quadratically" % bad, where=c.where(), witness=[c.where()])
+    rep.floor("R27-growth-storage", tag + "storage growth requests", n, 2)
+
+
+def rule_growth_storage_cxx(ctx, rep, config="cxx-lib"):
+    rule_growth_storage(ctx, rep, config="cxx-lib", tag="[c++] ")
